@@ -175,6 +175,9 @@ def main(argv):
     n = 24 if ck.quick else 400
     scripts, g = sg.generate(n, ck.seed + 3, 6 if ck.quick else 8)
     ck.add_model(g, 'Script_Gen: %d scripts' % len(scripts))
+    # (the hand-written scripts of C03 - dual-use libraries, test_deps,
+    # pre-built libraries, copies and links ... - on both backends as well)
+    scripts = c03.directed() + scripts
     jobs = [(s, CONFIGS[i % len(CONFIGS)]) for i, s in enumerate(scripts)]
     res = pmap(compare, jobs, jobs=8)
     # same history on both backends (dependency relation)
